@@ -2,6 +2,7 @@
    state projection, mirrored by harness/processor/zz_verif_proc_test.go.  No theorem depends on this file. *)
 From Coq Require Import List ZArith Bool Arith Strings.Byte.
 From WH Require Import lib.Bytes lib.Wire gen.Extracted model.Vaa model.Processor.
+From WH Require lib.Keccak.
 Import ListNotations.
 Open Scope Z_scope.
 
@@ -64,3 +65,7 @@ Fixpoint cmp_steps (rc : bytes -> bytes -> option bytes) (kc sg : bytes -> bytes
 
 Definition check_hist (h : hist) : Z :=
   cmp_steps (tbl_rec (h_rec h)) (tbl1 (h_keccak h)) (tbl1 (h_sign h)) (h_own h) (h_gov_chain h) (h_gov_addr h) init (h_ops h) (h_expect h) 0.
+
+(* the recorded Keccak table is checked against the executable Gallina Keccak-256 (lib/Keccak.v) in the same evaluation:
+   -2 = some recorded (input, output) pair is not a value of keccak256; otherwise the result of check_hist *)
+Definition check_hist_k (h : hist) : Z := if WH.lib.Keccak.keccak_table_ok (h_keccak h) then check_hist h else -2.
